@@ -6,6 +6,7 @@ from classy_blocks.construct.operations.operation import Operation
 from classy_blocks.items.edges.edge import Edge
 from classy_blocks.items.edges.factory import factory
 from classy_blocks.items.vertex import Vertex
+from classy_blocks.util.tools import edge_map
 
 
 class EdgeList:
@@ -43,8 +44,11 @@ class EdgeList:
         edges = []
 
         for data in data_frame.get_all_beams():
-            corner_1 = data[0]
-            corner_2 = data[1]
+            # edge data is given in the direction of face's/operation's edges,
+            # (the last edge of a face runs from corner 3 to 0 and not vice versa)
+            location = edge_map[data[0]][data[1]]
+            corner_1 = location.corner_1
+            corner_2 = location.corner_2
 
             vertex_1 = vertices[corner_1]
             vertex_2 = vertices[corner_2]
